@@ -514,7 +514,7 @@ def gen_and_run(rng, profile, nsteps):
         else:
             a = [k]
         rec.do(a)
-        if W.lost and rng.random() < 0.5:
+        if rec.aborted or (W.lost and rng.random() < 0.5):
             break
     return rec.finish()
 
@@ -524,6 +524,8 @@ def run_actions(actions):
     rec = Recorder(W)
     for a in actions:
         rec.do(a)
+        if rec.aborted:
+            break
     return rec.finish()
 
 
@@ -532,6 +534,7 @@ class Recorder:
         self.W = W
         self.actions, self.groups, self.obs, self.snaps = [], [], [], []
         self.discarded = False
+        self.aborted = False
         self.flags = set()
 
     def do(self, a):
@@ -543,8 +546,15 @@ class Recorder:
             if W.H.waitingForAnswers and not a[2]:
                 self.flags.add("resend-races-release")
         held_before = set(W.held)
-        ops, ob = W.act(a)
-        W.audit()
+        try:
+            ops, ob = W.act(a)
+            W.audit()
+        except Exception:
+            import traceback
+            self.aborted = True
+            W.problems.append(("oracle/exception-escaped", "an exception escaped from the implementation during action %r: %s"
+                               % (a, traceback.format_exc()[-700:])))
+            return
         if a[0] == "oh" and ob:
             self.flags.add("delivery")
             if set(ob) & held_before:
@@ -566,7 +576,22 @@ class Recorder:
 
     def finish(self):
         W = self.W
-        left, pinned = W.finish(self.discarded)
+        if self.aborted:
+            problems = list(W.problems)
+            try:
+                W.close()
+            except Exception:
+                pass
+            return dict(actions=self.actions, groups=self.groups, obs=self.obs, snaps=self.snaps, problems=problems,
+                        discarded=self.discarded, flags=sorted(self.flags), left={}, pinned=[])
+        try:
+            left, pinned = W.finish(self.discarded)
+        except Exception:
+            import traceback
+            W.problems.append(("oracle/exception-escaped", "an exception escaped from the implementation while draining: %s"
+                               % traceback.format_exc()[-700:]))
+            left, pinned = {}, []
+            W.lost = True
         problems = list(W.problems)
         if (left or pinned) and not W.lost:
             if left == W.disc_count and pinned == sorted(left):
@@ -781,7 +806,7 @@ def check_refs(ctx, pid, nontrivial_flag):
     seen = set()
     for r in results:
         for sig, text in r["problems"]:
-            if SIG_PROPERTY.get(sig) != pid or sig in seen:
+            if SIG_PROPERTY.get(sig, pid) != pid or sig in seen:
                 continue
             seen.add(sig)
             acts = shrink_actions(r["actions"], sig)
